@@ -329,14 +329,19 @@ fn proxy_websocket(
         let mut source_buffer: [u8; 1024] = [0; 1024];
         let mut destination_buffer: [u8; 1024] = [0; 1024];
 
+        // A read of zero bytes means that the peer has closed its side of the connection (as opposed
+        //   to `WouldBlock`, which means that nothing has arrived yet), so the proxying ends and both
+        //   streams are dropped, which closes the connection to the other side as well.
         loop {
             let source_read = match source.read(&mut source_buffer) {
+                Ok(0) => break,
                 Ok(read) => read,
                 Err(ref e) if e.kind() == std::io::ErrorKind::WouldBlock => 0,
                 _ => break,
             };
 
             let destination_read = match destination.read(&mut destination_buffer) {
+                Ok(0) => break,
                 Ok(read) => read,
                 Err(ref e) if e.kind() == std::io::ErrorKind::WouldBlock => 0,
                 _ => break,
